@@ -300,7 +300,25 @@ impl Real {
         }
     }
 
+    /// `unwinding <module call>` (track traits, `unwind.rs`): the call is made from a destructor while
+    /// this (child) thread unwinds from a caught panic; same observations and late-bound inputs.  Only
+    /// the module calls that are specified not to panic are accepted (not `add`, not the file ops).
     fn step(&mut self, w: &[&str]) {
+        if let ["unwinding", rest @ ..] = w {
+            if !matches!(rest.first().copied(), Some("obs" | "mobs" | "scan" | "get" | "sr" | "unl")) {
+                self.o("bad-op");
+                return;
+            }
+            match crate::unwind::while_unwinding(|| self.step_plain(rest)) {
+                Ok(()) => self.out.push("T unwinding".into()),
+                Err(p) => std::panic::resume_unwind(p),
+            }
+            return;
+        }
+        self.step_plain(w)
+    }
+
+    fn step_plain(&mut self, w: &[&str]) {
         if self.dead {
             self.o("dead");
             return;
@@ -757,6 +775,12 @@ impl Family for NfsFamily {
             }
         }
         out.push("unl".to_string());
+        // track traits: some module calls made while the (child) thread is unwinding
+        if rng.chance(1, 4) {
+            out = crate::unwind::sprinkle(rng, out, 1, 2, |o| {
+                matches!(o.split(' ').next(), Some("obs" | "mobs" | "scan" | "get" | "sr" | "unl"))
+            });
+        }
         out
     }
 }
